@@ -47,11 +47,12 @@ type c15Case struct {
 	Input           int
 	Dry, Print, Log int
 	Out             int // 0 default path, 1 -out in another directory
-	State           int // 0 absent, 1 present with old bytes, 2 parent directory missing, 3 path is a directory, 4 path below a regular file, 5 present and read-only file
+	State           int // 0 absent, 1 present with old bytes, 2 parent directory missing, 3 path is a directory, 4 path below a regular file, 5 present and read-only file, 6 hard link to the setup file, 7 symbolic link to the setup file
+	FullOut         int // 1: stdout cannot be written (/dev/full), meaningful with -print
 }
 
 func (c c15Case) id() string {
-	return fmt.Sprintf("c15_%d_%d%d%d_%d_%d", c.Input, c.Dry, c.Print, c.Log, c.Out, c.State)
+	return fmt.Sprintf("c15_%d_%d%d%d_%d_%d_%d", c.Input, c.Dry, c.Print, c.Log, c.Out, c.State, c.FullOut)
 }
 
 const c15OldBytes = "package p\n\n// stale content that must survive a dry or failed run\nvar Stale = 1\n"
@@ -100,6 +101,18 @@ func c15Prepare(base string, c c15Case) (root, cwd string, args []string, outPat
 		_ = os.WriteFile(filepath.Join(outPath, "inner", "f.txt"), []byte("x\n"), 0o644)
 	case 5:
 		_ = os.WriteFile(outPath, []byte(c15OldBytes), 0o444)
+	case 6:
+		if os.Link(filepath.Join(cwd, "setup.go"), outPath) != nil {
+			return "", "", nil, "", "", false
+		}
+	case 7:
+		target := "setup.go"
+		if c.Out == 1 {
+			target = "../p/setup.go"
+		}
+		if os.Symlink(target, outPath) != nil {
+			return "", "", nil, "", "", false
+		}
 	}
 	if c.Dry == 1 {
 		args = append(args, "-dry")
@@ -238,11 +251,17 @@ func init() {
 				for pr := 0; pr < 2; pr++ {
 					for lg := 0; lg < 2; lg++ {
 						for out := 0; out < 2; out++ {
-							for st := 0; st < 6; st++ {
-								if !th && (in == 1 || in == 6 || in == 8 || st >= 4 || (out == 1 && st == 3)) {
+							for st := 0; st < 8; st++ {
+								if !th && (in == 1 || in == 6 || in == 8 || st == 4 || st == 5 || (out == 1 && st == 3)) {
 									continue
 								}
-								cases = append(cases, c15Case{in, dry, pr, lg, out, st})
+								if !th && st >= 6 && in > 2 {
+									continue
+								}
+								cases = append(cases, c15Case{in, dry, pr, lg, out, st, 0})
+								if pr == 1 && st <= 1 && (th || in == 0 || in == 2) {
+									cases = append(cases, c15Case{in, dry, pr, lg, out, st, 1})
+								}
 							}
 						}
 					}
@@ -259,7 +278,7 @@ func init() {
 			}
 		}
 		e.Rep.Set("strace_monitor", useStrace)
-		e.Rep.Rule("complete product input kind{accepted x2, rejected in parse / build / at the format stage, no interface, syntax error, a module of its own whose go.mod lacks / has the require for an imported replaced module} x -dry x -print x -log x {default path, -out other dir} x output-path state{absent, present with old bytes, parent directory missing, path is a directory, path below a regular file, read-only file}; " +
+		e.Rep.Rule("complete product input kind{accepted x2, rejected in parse / build / at the format stage, no interface, syntax error, a module of its own whose go.mod lacks / has the require for an imported replaced module} x -dry x -print x -log x {default path, -out other dir} x output-path state{absent, present with old bytes, parent directory missing, path is a directory, path below a regular file, read-only file, hard link to the setup file, symbolic link to the setup file} x (with -print) stdout {writable, /dev/full}; " +
 			"oracle O-frame: snapshot (content hash + mode of every path under the scratch root incl. HOME and TMPDIR, GOCACHE and the go telemetry dir excluded) before vs after: changed paths subset of {output iff exit 0 and not -dry} + {log iff -log}; " +
 			"with -dry or a failed run the output path keeps existence, bytes and mode; thorough adds an strace monitor of every write-class syscall issued by the convergen process itself; " +
 			"non-trivial = run that fails or carries -dry with a pre-existing output path")
@@ -282,6 +301,9 @@ func init() {
 					os.RemoveAll(root)
 				}()
 				feat := fmt.Sprintf("input=%s|dry=%d|log=%d|out=%d|state=%d", c15Inputs[c.Input].id, c.Dry, c.Log, c.Out, c.State)
+				if c.FullOut == 1 {
+					feat += "|stdout=full"
+				}
 				home := filepath.Join(root, "home")
 				tmp := filepath.Join(root, "tmp")
 				env := []string{"HOME=" + home, "TMPDIR=" + tmp}
@@ -293,7 +315,10 @@ func init() {
 				before := histfs.Take(root, exclude)
 				var res *tool.Result
 				var writes []string
-				if useStrace {
+				if c.FullOut == 1 {
+					// stdout redirected to a device that refuses every write
+					res = e.Runner.RunBin("/bin/sh", cwd, append([]string{"-c", `exec "$0" "$@" >/dev/full`, e.Runner.Bin}, args...), env...)
+				} else if useStrace {
 					prefix := filepath.Join(e.Scratch, "st-"+c.id())
 					sargs := append([]string{"-ff", "-o", prefix, "-e", "trace=execve,clone,clone3,fork,vfork,open,openat,creat,rename,renameat,renameat2,unlink,unlinkat,mkdir,mkdirat,rmdir,truncate,chmod,fchmodat,chown,fchownat,lchown,link,linkat,symlink,symlinkat,utimensat,mknod,mknodat", e.Runner.Bin}, args...)
 					res = e.Runner.RunBin(straceBin, cwd, sargs, env...)
@@ -320,7 +345,7 @@ func init() {
 					add("crash", clip(res.Stderr, 300))
 					return fs, false
 				}
-				if c15Inputs[c.Input].accepted && c.State <= 1 && res.Exit != 0 {
+				if c15Inputs[c.Input].accepted && c.State <= 1 && res.Exit != 0 && c.FullOut == 0 {
 					add("accepted-input-failed", clip(res.Stderr, 300))
 				}
 				outRel, _ := filepath.Rel(root, outPath)
